@@ -144,9 +144,16 @@ CHECKS["C06"] = dict(
     technique="TLA+ spec model-checked with TLC (exhaustive, -simulate, liveness); TLC-generated transport schedules replayed into the real tokio / async-std / blocking variants with the model's ScheduleIndependent invariant as differential oracle",
 )
 
+CHECKS["C18"] = dict(
+    category="model_checking",
+    text="every wowm block of the generated Rust doc comments (2,057) and of the documentation pages (2,064 version sections of 1,411 pages), taken from the regenerated output where it differs from the committed one, is re-parsed by the independent front-end and compared by TLC with its source object (spec/DocRefine.tla: SameDefinition with the first differing path; body table = flattened definition with sizes from the wire model's intervals; enumerator tables; both directions incl. undocumented objects); every documented example (175) is validated by TLC as a trace of annotated byte groups against the definition's decoder WowmWire!Dec (spec/TraceDocExamples.tla: concatenation = a corpus test vector, header groups, group boundaries = decoder events in order, leaf names, enumerator names and value literals). All images and examples in both tiers; thorough adds a seeded single-token sensitivity sweep over every documentation file (3,203 changes, all rejected).",
+    design_ref="DESIGN.md section 5 C18; notes/C18.md",
+    note="definition half is a mapping evaluated by TLC over a chain of pair states (no interleaving); example half is genuine trace validation of the doc printer as a second wire walker. 6 compressed examples and 12 sections without a body table are uncovered; offsets / endianness / type labels of tables and the [i] / struct prefixes of example paths are not judged. Finding: SizedCString example bytes printed inside a comment (smsg_messagechat.md:111) - notes/C18.patch or the proposed known finding. TLC -coverage is not usable on the trace module (OOM); it keeps own per-action counters.",
+    technique="TLA+ refinement mapping doc text -> object table (DocRefine) + TLC trace validation of documented examples against WowmWire!Dec (TraceDocExamples); artefacts from tools/regen.py (generator built from the current tree); self-test by text mutation",
+)
+
 NOT_YET = {
     "C07": "not built in this round: needs a constructive grammar spec (WowmGrammar.tla) whose generated programs are compiled by the generator and rustc per batch; the wire model, front-end and replay it would reuse exist (DESIGN.md section 5 C07)",
-    "C18": "not built in this round: the definition-equality half needs the doc re-parser, the example half can reuse the decoder operators of spec/WowmWire.tla (Dec) that were added late (DESIGN.md section 5 C18)",
 }
 
 def main():
